@@ -23,6 +23,8 @@ import TensoraVerif.Lemmas.SpmvGenerate
 import TensoraVerif.Lemmas.SpmulGenerate
 import TensoraVerif.Lemmas.SpaddModel
 import TensoraVerif.Lemmas.DenseNModel
+import TensoraVerif.Lemmas.Sparse2Generate
+import TensoraVerif.Lemmas.DenseTermModel
 open TV
 
 namespace Drv
@@ -39,6 +41,14 @@ def nestOK (o : TV.Graph.TensorId) : List String → Nat → TV.Graph.IGraph →
   | [], _, .terminal _ => true
   | i :: rest, l, .iter j (some lf) n => i == j && decide (lf.tensor = o) && lf.layer == l && nestOK o rest (l + 1) n
   | _, _, _ => false
+
+/-- the levels `(index, is-output)` of a linear nest whose output leaves are the levels 0,1,… of `o` in order -/
+def nestLevels (o : TV.Graph.TensorId) : Nat → TV.Graph.IGraph → Option (List (String × Bool) × TV.Graph.IdExpr)
+  | _, .terminal e => some ([], e)
+  | k, .iter x (some lf) n =>
+    if decide (lf.tensor = o) && lf.layer == k then (nestLevels o (k + 1) n).map fun r => ((x, true) :: r.1, r.2) else none
+  | k, .iter x none n => (nestLevels o k n).map fun r => ((x, false) :: r.1, r.2)
+  | _, .sum _ => none
 
 def tensorIdOf (d : TV.Alg.DAssign) (fs : TV.Graph.Formats) : Option TV.Graph.TensorId :=
   TV.Graph.tensorId 0 d.tname fs d.tidx
@@ -413,6 +423,22 @@ def handle (cmd : String) (args : List Sexp) : Sexp :=
               | none => false)
            | none => false)
         if isN then .atom "denseN" else
+        -- sparse2: two-level compressed copy / scale
+        let isS2 := match g, a.tidx with
+          | .iter i (some ⟨o, 0⟩) (.iter j (some ⟨o', 1⟩) (.terminal e)), [i', j'] =>
+            i == i' && j == j' && i != j && decide (o = o') && plain && Sparse2.isSS i j o && Sparse2.ssFormats fs &&
+            (match ToIr.leaves e with | [bT] => Sparse2.isExpr i j bT e && fnames == [o.name, bT.name] | _ => false)
+          | _, _ => false
+        if isS2 then .atom "sparse2" else
+        -- denseTerm: any all-dense linear nest with contraction loops (matrix product, dot product, ...)
+        let isDT := plain && Dense2.denseFormats fs && (match tensorIdOf d fs with
+          | some o => (match nestLevels o 0 g with
+            | some (lv, e) =>
+              lv.any (fun p => !p.2) && (DenseTerm.idxs lv).eraseDups.length == lv.length && DenseTerm.isOut lv o &&
+              DenseTerm.isExpr (DenseTerm.idxs lv) e && !DenseTerm.zeroish e && DenseTerm.idsOK (ToIr.leaves e) &&
+              (ToIr.leaves e).all (fun t => t.name != o.name)
+            | none => false)
+          | none => false)
         match g with
         | .iter i (some ⟨o, 0⟩) (.terminal e) =>
           let one := match ToIr.leaves e with | [bT] => Sparse1.isExpr i bT e && fnames == [o.name, bT.name] | _ => false
@@ -432,8 +458,9 @@ def handle (cmd : String) (args : List Sexp) : Sexp :=
             | _ => false
           if plain && i != j && csr then .atom "spmv" else
           if plain && i != j && Dense1.isLeaf i o && Dense2.isExpr i j e && Dense2.idsOK i j e && Dense2.denseFormats fs
-            && (ToIr.leaves e).all (fun t => t.name != o.name) then .atom "dense2" else .atom "none"
-        | _ => .atom "none"
+            && (ToIr.leaves e).all (fun t => t.name != o.name) then .atom "dense2"
+          else if isDT then .atom "denseTerm" else .atom "none"
+        | _ => if isDT then .atom "denseTerm" else .atom "none"
       | _ => .atom "none"
     | _, _ => Sexp.mk "bad-request" [.str "class-args"]
   | "DIMFREE", [a, fs, .str i] =>
